@@ -33,8 +33,19 @@ RULE = (
     'a cap plane, towards the axis, coordinate axes; (b) one quadrature() call per deterministic '
     'kind on such a cylinder (radius optionally in another unit); (c) one compute_transmission_map '
     'pipeline (zero density, two densities, rigidly moved copy, other-end description; 1-3 '
-    'wavelengths 0.1..20 angstrom, 1-6 detectors over the sphere at 3..1e4 sample sizes); a case '
-    'is never trivial; distinct = distinct (kind of case, unit, axis class, r/h decade, call '
+    'wavelengths 0.1..20 angstrom, 1-6 detectors over the sphere at 3..1e4 sample sizes; ONE Cylinder '
+    'and ONE Material object live through the pipeline, density / scattering_params / symmetry_line / '
+    'center_of_base reassigned between the calls); (d) object state: one Cylinder whose four public '
+    'fields are reassigned in turn, then modified in place / copied (dataclasses.replace, copy, '
+    'deepcopy) / moved rigidly / re-expressed in another unit, with beam_intersection, quadrature, '
+    'volume, center and compute_transmission_map called after every step and judged against the '
+    'fields current at the call; likewise one Material; (e) internal thresholds of the code crossed '
+    'from both sides: h/r on, just below and above the clamps and rounding boundaries of the axial node '
+    'count, axis tilt just above 1e-10 (no-rotation limit), ray tilt 0.5..5 sqrt(eps) (parallel-line '
+    'limit), and per run one heavy case where nodes x detectors crosses 2e7 (flat pixel list just '
+    'above and just below, the same pixels as a 2-d array; 3 wavelengths; compared elementwise with '
+    'each other and with a small call on a subset of the pixels; the branch taken is observed as '
+    'nested frames of _integrate_transmission_fraction); a case is never trivial; distinct = distinct (kind of case, unit, axis class, r/h decade, call '
     'shape / quadrature kind / optical-depth decade) signatures'
 )
 ASSUMPTIONS = [
@@ -57,6 +68,12 @@ ASSUMPTIONS = [
     'mu = n (sigma_s + sigma_a lambda / 1.7982 angstrom) (C20 owns the tables)',
     'start point, base and height share one length unit (scipp refuses anything else); radius may '
     'use another length unit for quadrature()',
+    'Cylinder and Material are mutable dataclasses: after a public field has been reassigned (or the '
+    'Variable it holds modified in place) every method answers for the solid / material the fields '
+    'describe at the time of the call; a refused assignment (frozen class) is counted, not judged',
+    'the evaluation order of the detector dimension is not part of the property: the per-detector '
+    'loop and the vectorised evaluation of the same pixels and wavelengths agree to 1e-12 absolute '
+    '(different summation order of ~9000 terms in (0, 1])',
 ]
 TIMEOUT_S = {'quick': 900, 'thorough': 3 * 3600}
 
@@ -72,7 +89,12 @@ SMALL_DISPLACEMENT = 1e-7   # (r + h): node displacements below this are accurac
 T_FLOOR = 0.05          # rigid-motion backstop judged where at least this fraction is transmitted
 LEN_UNITS = ('mm', 'cm', 'm')
 NEAR_AXIS = 1.0 / 64    # the axial-offset leak eps |b.a| / tilt can exceed 64 eps (|p-b|+r+h) only below this angle
-BIG_JUDGE_EVERY = 40    # in-situ beam_intersection calls judged inside the >2e7 case
+BIG_JUDGE_EVERY = 100   # in-situ beam_intersection calls judged inside the heavy (>2e7) case
+BIG_ELEMS = 400_000     # observed arrays above this size are thinned before they are materialised
+LOOP_LIMIT = 20_000_000  # workload only: where base.py switches to the per-detector loop (the
+#                          branch actually taken is observed, never assumed)
+NODE_RULE = {'cheap': (5, 5, 15), 'medium': (7, 7, 25), 'expensive': (11, 11, 35)}  # workload only:
+#                          k = round(clip(mult * h/r, lo, hi)) axial nodes in cylinder.py
 
 
 # ----------------------------------------------------------------- geometry ---
@@ -135,6 +157,35 @@ def _scal_values(v, dims, shape):
     return np.asarray(v.values, dtype=np.float64).reshape(shape)
 
 
+def _thin(st, res, others, cap=BIG_ELEMS):
+    """Random sub-block of a large observed array (and of its operands, by dim name) so that a
+    2e7-element call is never copied whole: indices are kept along the leading dims until
+    at most ``cap`` elements remain."""
+    others = list(others)
+    for d in tuple(res.dims):
+        if res.size <= cap:
+            break
+        n = res.sizes[d]
+        keep = max(1, int(cap // max(1, res.size // n)))
+        if keep >= n:
+            continue
+        idx = np.sort(st.rng.choice(n, size=keep, replace=False))
+
+        def pick(v, d=d, idx=idx):
+            if not hasattr(v, 'dims') or d not in v.dims:
+                return v
+            return sc.concat([v[d, int(k)] for k in idx], d)
+        res = pick(res)
+        others = [pick(o) for o in others]
+    return res, others
+
+
+def _big_skip(st, size):
+    """Inside the heavy case only every BIG_JUDGE_EVERY-th small call is judged; large calls
+    always are (thinned)."""
+    return bool(st.big and size <= BIG_ELEMS and st.big_counter % BIG_JUDGE_EVERY)
+
+
 # ------------------------------------------------------------ monitor state ---
 class State:
     def __init__(self, ctx, shard):
@@ -150,6 +201,9 @@ class State:
         self.big_counter = 0
         self.rng = np.random.Generator(np.random.PCG64([shard['seed'], shard['index'], 99]))
         self.maps = []               # judged map results of the current pipeline
+        self.integ_depth = 0         # live frames of _integrate_transmission_fraction
+        self.loop_calls = 0          # nested frames seen (= the per-detector loop branch ran)
+        self.integ_calls = 0
 
 
 # -------------------------------------------------- beam_intersection monitor ---
@@ -157,7 +211,7 @@ def judge_beam(st: State, ev):
     ctx = st.ctx
     c = ev.args['self']
     sp, dr, res = ev.args['start_point'], ev.args['direction'], ev.result
-    in_situ = st.origin != 'direct'
+    in_situ = ev.depth > 0
     tag = 'in_situ' if in_situ else 'direct'
     try:
         g = Geom(c)
@@ -174,10 +228,13 @@ def judge_beam(st: State, ev):
         return
     if st.big:
         st.big_counter += 1
-        if st.big_counter % BIG_JUDGE_EVERY:
+        if _big_skip(st, res.size):
             ctx.count('in_situ_calls_not_judged_in_big_case')
             return
     try:
+        if res.size > BIG_ELEMS:
+            res, (sp, dr) = _thin(st, res, (sp, dr))
+            ctx.count('rays_thinned_calls')
         dims, shape = tuple(res.dims), tuple(res.shape)
         got = np.asarray(res.values, dtype=np.float64).reshape(shape)
         P = _vec_values(sp, dims, shape) * float(_ratio(sp.unit, g.unit))
@@ -277,8 +334,13 @@ def judge_positive_interval(st: State, ev):
     ctx = st.ctx
     if ev.exc is not None:
         return
+    if _big_skip(st, ev.result.size):
+        return
     try:
         a, b, res = ev.args['a'], ev.args['b'], ev.result
+        if res.size > BIG_ELEMS:
+            res, (x0, x1, y0, y1) = _thin(st, res, (*a, *b))
+            a, b = (x0, x1), (y0, y1)
         dims, shape = tuple(res.dims), tuple(res.shape)
         a0, a1 = (_scal_values(x, dims, shape).astype(LD) for x in a)
         b0, b1 = (_scal_values(x, dims, shape).astype(LD) for x in b)
@@ -293,8 +355,6 @@ def judge_positive_interval(st: State, ev):
             bad = judged & ~same_inf & ~(diff <= LD(2 * EPS) * np.abs(exp))
     except Exception:  # noqa: BLE001
         ctx.oracle_error('C18 positive-interval model')
-        return
-    if st.big and st.big_counter % BIG_JUDGE_EVERY:
         return
     ctx.event('helper.positive_interval')
     if np.any(bad):
@@ -312,11 +372,13 @@ def judge_slab(st: State, ev):
     """Observed (flag, left, right): right - left = h / |n.a| and 0 in [left, right] iff the
     origin lies between the planes (decided outside a rounding band)."""
     ctx = st.ctx
-    if ev.exc is not None or (st.big and st.big_counter % BIG_JUDGE_EVERY):
+    if ev.exc is not None or _big_skip(st, ev.result[1].size):
         return
     try:
         a, b, h, n = (ev.args[k] for k in 'abhn')
         flag, left, right = ev.result
+        if left.size > BIG_ELEMS:
+            left, (flag, right, a, b, h, n) = _thin(st, left, (flag, right, a, b, h, n))
         dims, shape = tuple(left.dims), tuple(left.shape)
         A = _vec_values(a, dims, shape).astype(LD)
         B = _vec_values(b, dims, shape).astype(LD)
@@ -362,11 +424,13 @@ def judge_infinite_cylinder(st: State, ev):
     roots of A t^2 + 2 B t + C (backward-stable residual) and the flag is the sign of the
     discriminant outside a rounding band."""
     ctx = st.ctx
-    if ev.exc is not None or (st.big and st.big_counter % BIG_JUDGE_EVERY):
+    if ev.exc is not None or _big_skip(st, ev.result[1].size):
         return
     try:
         a, b, r, n = (ev.args[k] for k in 'abrn')
         flag, left, right = ev.result
+        if left.size > BIG_ELEMS:
+            left, (flag, right, a, b, r, n) = _thin(st, left, (flag, right, a, b, r, n))
         dims, shape = tuple(left.dims), tuple(left.shape)
         Av = _vec_values(a, dims, shape)
         Bv = _vec_values(b, dims, shape)
@@ -471,6 +535,8 @@ def judge_quadrature(st: State, c, kind, result, exc, origin, canonical=False):
     keys = dict(g.keys)      # mechanism facts; kind and pose are in the case description
     case = {'monitor': 'quadrature', 'origin': origin, 'kind': str(kind), 'cylinder': g.descr(),
             'pose': 'canonical' if canonical else 'general'}
+    if st.case_descr and not canonical:
+        case['case'] = st.case_descr
     if exc is not None:
         if isinstance(exc, NotImplementedError) and kind not in KINDS:
             ctx.count('excluded:unknown_kind')
@@ -683,17 +749,20 @@ def judge_single_scatter(st: State, ev):
     ctx = st.ctx
     if ev.exc is not None:
         return
-    if st.big:
-        if st.big_counter % BIG_JUDGE_EVERY:
-            return
+    if _big_skip(st, ev.result.size):
+        return
     try:
         g = Geom(ev.args['sample_shape'])
         res = ev.result
+        a_sp, a_id, a_sd = (ev.args[k] for k in ('scatter_point', 'initial_direction',
+                                                 'scatter_direction'))
+        if res.size > BIG_ELEMS:
+            res, (a_sp, a_id, a_sd) = _thin(st, res, (a_sp, a_id, a_sd))
         dims, shape = tuple(res.dims), tuple(res.shape)
         got = np.asarray(res.values, dtype=np.float64).reshape(shape)
-        P = _vec_values(ev.args['scatter_point'], dims, shape)
-        N1 = -_vec_values(ev.args['initial_direction'], dims, shape)
-        N2 = _vec_values(ev.args['scatter_direction'], dims, shape)
+        P = _vec_values(a_sp, dims, shape) * float(_ratio(a_sp.unit, g.unit))
+        N1 = -_vec_values(a_id, dims, shape)
+        N2 = _vec_values(a_sd, dims, shape)
         if got.size > 60000:
             flat = st.rng.choice(got.size, size=20000, replace=False)
             sel = np.unravel_index(flat, shape)
@@ -736,14 +805,67 @@ def judge_single_scatter(st: State, ev):
 
 def on_quadrature_return(st: State, ev):
     kind = ev.args.get('kind')
-    if ev.depth > 0 and ev.exc is None and st.origin == 'transmission':
+    if ev.depth > 0 and ev.exc is None and st.origin in ('transmission', 'state'):
         st.last_quad = (ev.result[0], ev.result[1], kind, ev.args['self'])
     judge_quadrature(st, ev.args['self'], kind, ev.result, ev.exc, st.origin)
 
 
+def on_integrate_start(st: State, ev):
+    st.integ_depth += 1
+    st.integ_calls += 1
+    if st.integ_depth > 1:
+        st.loop_calls += 1           # a frame inside a frame: the per-detector loop branch
+
+
 def on_integrate_return(st: State, ev):
-    if ev.exc is None and st.origin == 'transmission':
+    st.integ_depth = max(0, st.integ_depth - 1)
+    if ev.exc is None and st.origin in ('transmission', 'state'):
         st.last_integral = ev.result   # outermost returns last
+
+
+def judge_props(st: State, c, label):
+    """``volume`` and ``center`` of a live object against its CURRENT public fields."""
+    ctx = st.ctx
+    try:
+        g = Geom(c)
+    except Exception:  # noqa: BLE001
+        ctx.oracle_error('C18 geometry of observed cylinder')
+        return
+    case = {'monitor': 'Cylinder.volume / Cylinder.center', 'cylinder': g.descr(), 'state': label}
+    if st.case_descr:
+        case['case'] = st.case_descr
+    for name in ('volume', 'center'):
+        try:
+            got = getattr(c, name)
+        except AttributeError:
+            ctx.count(f'not_judged:no_attribute_{name}')
+            continue
+        except Exception as e:  # noqa: BLE001
+            ctx.violation('state_attribute_raised', f'Cylinder.{name} raised {type(e).__name__}: {e}',
+                          case, attribute=name)
+            continue
+        try:
+            if name == 'volume':
+                w_unit = g.r_unit * g.r_unit * g.h_unit
+                gv = got if got.unit == w_unit else got.to(unit=w_unit)
+                V = cyl.volume(g.r_raw, g.h_raw)
+                err = float(abs(LD(float(gv.value)) - V) / V)
+                tol = 16 * EPS
+                what = f'volume {float(gv.value)!r}, pi r^2 h of the current fields {float(V)!r}'
+            else:
+                gv = np.asarray(got.value, dtype=np.float64) * float(_ratio(got.unit, g.unit))
+                exp = np.asarray(g.base, dtype=LD) + g.fr[2] * g.h / 2
+                err = float(np.max(np.abs(gv.astype(LD) - exp)) / (LD(g.bmag) + g.h))
+                tol = 16 * EPS
+                what = (f'center {gv.tolist()!r}, base + axis h/2 of the current fields '
+                        f'{[float(x) for x in exp]!r}')
+        except Exception:  # noqa: BLE001
+            ctx.oracle_error(f'C18 {name} oracle')
+            continue
+        ctx.event(f'state.{name}')
+        ctx.dev(f'{name} relative deviation from the current fields', err)
+        if not err <= tol:
+            ctx.violation(f'state_{name}', what, case, attribute=name)
 
 
 def judge_map(st: State, ev):
@@ -783,7 +905,7 @@ def judge_map(st: State, ev):
         T = np.asarray(data.transpose(want).values, dtype=np.float64).reshape(-1, lam.sizes[lam.dim])
         D = np.asarray(det.values, dtype=np.float64).reshape(-1, 3) * float(_ratio(det.unit, g.unit))
         sub = None
-        if D.shape[0] > 48:
+        if D.shape[0] > (8 if st.big else 48):
             sub = np.sort(st.rng.choice(D.shape[0], size=8, replace=False))
             sub[0], sub[-1] = 0, D.shape[0] - 1
             D, Tj = D[sub], T[sub]
@@ -891,7 +1013,7 @@ def _beam_tilt_class(g, beam):
 
 # -------------------------------------------------------------------- workload ---
 AXIS_CLASSES = ('+x', '-x', '+y', '-y', '+z', '-z', 'near+z', 'near-z', 'z<0', 'z>0',
-                'equator+', 'equator-', 'xy-plane', 'sphere', 'z<0', 'xy-plane-up')
+                'equator+', 'equator-', 'xy-plane', 'sphere', 'tilt>1e-10', 'xy-plane-up')
 FORCED_AXIS = {'+x': 'axis +x', '-x': 'axis -x', '+y': 'axis +y', '-y': 'axis -y', '+z': 'axis +z',
                '-z': 'axis -z', 'near+z': 'axis within 1e-12 of +z',
                'near-z': 'axis within 1e-12 of -z'}
@@ -913,6 +1035,14 @@ def gen_axis(rng, cls, ctx):
         t = 10.0 ** rng.uniform(-16, -12)
         ph = rng.uniform(0, 2 * np.pi)
         a = _unit(np.array([t * np.cos(ph), t * np.sin(ph), 1.0 if cls == 'near+z' else -1.0]))
+    elif cls == 'tilt>1e-10':
+        # just above the tilt from +-z below which quadrature() applies no rotation (the band
+        # 1e-12..1e-10 below it is left out: there the nodes are displaced by up to 5e-11 h, an
+        # accuracy-only effect far inside what the property states, but above TOL_NODE)
+        t = 1e-10 * (1.0 + 10.0 ** rng.uniform(-6, 2))
+        ph = rng.uniform(0, 2 * np.pi)
+        a = _unit(np.array([t * np.cos(ph), t * np.sin(ph), 1.0 if rng.random() < 0.5 else -1.0]))
+        ctx.hit('axis just above the no-rotation tilt of 1e-10')
     elif cls in ('xy-plane', 'xy-plane-up'):
         # a normalised in-plane vector; 'up': one whose float64 sqrt(ax^2 + ay^2) rounds above 1
         # (0.7 % of normalised vectors) - still a unit axis to rounding
@@ -974,7 +1104,7 @@ def make_cylinder(Cylinder, s):
 ORIGINS = ('inside', 'outside_near', 'outside_far', 'lateral', 'cap', 'edge', 'inside', 'outside_near',
            'base_point', 'centre', 'lateral', 'cap')
 DIRS = ('random', 'parallel', 'antiparallel', 'near_parallel', 'tangent', 'edge', 'in_cap_plane',
-        'toward_axis', 'coord', 'random', 'parallel_to_rounding', 'tangent', 'edge')
+        'toward_axis', 'coord', 'parallel_threshold', 'parallel_to_rounding', 'tangent', 'edge')
 
 
 def _axis_to_rounding(rng, a):
@@ -1039,6 +1169,11 @@ def gen_rays(rng, s, n_rays, ctx):
             t = 10.0 ** rng.uniform(-12, -9)
             ph2 = rng.uniform(0, 2 * np.pi)
             n = _unit((a if rng.random() < 0.5 else -a) + t * (np.cos(ph2) * e1 + np.sin(ph2) * e2))
+        elif dc == 'parallel_threshold':
+            # both sides of the tilt sqrt(eps) below which the code treats a line as parallel
+            t = np.sqrt(EPS) * 10.0 ** rng.uniform(-0.3, 0.7)
+            ph2 = rng.uniform(0, 2 * np.pi)
+            n = _unit((a if rng.random() < 0.5 else -a) + t * (np.cos(ph2) * e1 + np.sin(ph2) * e2))
         elif dc == 'tangent':
             qp = q - np.dot(q, a) * a
             rho0 = np.linalg.norm(qp)
@@ -1085,6 +1220,8 @@ def gen_rays(rng, s, n_rays, ctx):
             ctx.hit('dir parallel within 1e-9')
         elif dc == 'parallel_to_rounding':
             ctx.hit('dir parallel to rounding')
+        elif dc == 'parallel_threshold':
+            ctx.hit('dir around the parallel-line tilt sqrt(eps)')
         elif dc == 'tangent':
             ctx.hit('dir tangent')
         elif dc == 'edge':
@@ -1136,8 +1273,18 @@ def quad_case(rng, st, Cylinder, i):
     ctx = st.ctx
     s = gen_solid(rng, ctx, i // 3, same_unit=False)
     kind = KINDS[i % 3]
+    at_threshold = (i // 3) % 4 == 3
+    if at_threshold:
+        # the number of axial nodes is round(clip(mult * h/r, lo, hi)) of the RAW values: put h/r
+        # on, just below and just above a clamp or a rounding boundary
+        mult, lo, hi = NODE_RULE[kind]
+        bounds = [lo / mult, hi / mult] + [(int(k) + 0.5) / mult for k in rng.integers(lo, hi, size=2)]
+        ratio = bounds[int(rng.integers(0, len(bounds)))] * (1.0 + int(rng.integers(-3, 4)) * EPS)
+        s['h'] = float(s['r'] * ratio)
+        ctx.hit('quadrature with h/r at a node-count threshold')
     c = make_cylinder(Cylinder, s)
-    st.case_descr = {'kind': 'quadrature', 'axis_class': s['axis_cls']}
+    st.case_descr = {'kind': 'quadrature', 'axis_class': s['axis_cls'],
+                     'h_over_r_at_node_count_threshold': bool(at_threshold)}
     try:
         c.quadrature(kind)
     except Exception:  # noqa: BLE001
@@ -1190,8 +1337,35 @@ def transmission_case(rng, st, mods, i, tier):
                           total_scattering_cross_section=sc.scalar(ss_si / fx, unit=xs_u))
     factor2 = float(rng.uniform(1.5, 8.0))
 
-    def material(scale):
-        return Material(sp, sc.scalar(n_si * scale / fd, unit=d_u))
+    def density(scale):
+        return sc.scalar(n_si * scale / fd, unit=d_u)
+
+    # ONE Material and ONE Cylinder object live through the pipeline: their public fields are
+    # reassigned between the calls (every monitor judges against the fields current at the call)
+    mat_live = Material(sp, density(0.0))
+    c_live = make_cylinder(Cylinder, s)
+
+    def assign(obj, **fields):
+        try:
+            for k, v in fields.items():
+                setattr(obj, k, v)
+        except Exception:  # noqa: BLE001   (e.g. a frozen dataclass: not a C18 matter)
+            ctx.count('state:field_assignment_refused')
+            return False
+        ctx.hit('field reassigned on a live object')
+        return True
+
+    def material(scale, via_params=False):
+        if via_params and scale != 1.0:
+            sp2 = ScatteringParams(
+                'Fake2', absorption_cross_section=sc.scalar(sa_si * scale / fx, unit=xs_u),
+                total_scattering_cross_section=sc.scalar(ss_si * scale / fx, unit=xs_u))
+            if assign(mat_live, scattering_params=sp2, effective_sample_number_density=density(1.0)):
+                return mat_live
+            return Material(sp2, density(1.0))
+        if assign(mat_live, scattering_params=sp, effective_sample_number_density=density(scale)):
+            return mat_live
+        return Material(sp, density(scale))
 
     if i % 4:
         beam, beam_cls = _sphere(rng), 'random'
@@ -1223,9 +1397,17 @@ def transmission_case(rng, st, mods, i, tier):
                      'optical_depth_target': tau, 'n_det': n_det, 'lam_angstrom': lam_A.tolist(),
                      'beam_class': beam_cls}
 
-    def run(sol, mat, bm, D, label):
+    def run(sol, mat, bm, D, label, in_place=False):
         st.maps.clear()
-        c = make_cylinder(Cylinder, sol)
+        c = None
+        if in_place and assign(c_live, symmetry_line=sc.vector(sol['axis']),
+                               center_of_base=sc.vector(sol['base'], unit=sol['U'])):
+            c = c_live
+            st.case_descr['state'] = f'{label}: fields reassigned on the object of the previous call'
+        else:
+            st.case_descr.pop('state', None)
+        if c is None:
+            c = c_live if sol is s else make_cylinder(Cylinder, sol)
         try:
             ctm(c, mat, beam_direction=sc.vector(bm), wavelength=lam, detector_position=det_var(D),
                 quadrature_kind=kind)
@@ -1236,14 +1418,15 @@ def transmission_case(rng, st, mods, i, tier):
 
     m0 = run(s, material(0.0), beam, dets, 'zero_density')
     m1 = run(s, material(1.0), beam, dets, 'density')
-    m2 = run(s, material(factor2), beam, dets, 'higher_density')
+    m2 = run(s, material(factor2, via_params=bool(i % 2)), beam, dets, 'higher_density')
     # rigid motion of sample, beam and detectors together
     R = _rotation(rng)
     t = rng.choice([-1.0, 1.0], size=3) * 10.0 ** rng.uniform(-3, 3, size=3)
     s_mv = dict(s, axis=_unit(R @ s['axis']), base=R @ s['base'] + t, axis_cls='moved')
-    m3 = run(s_mv, material(1.0), R @ beam, dets @ R.T + t, 'moved')
+    # even i: the motion is applied to the live object, the other end is a fresh one; odd i: reverse
+    m3 = run(s_mv, material(1.0), R @ beam, dets @ R.T + t, 'moved', in_place=(i % 2 == 0))
     s_oe = dict(s, axis=-s['axis'], base=s['base'] + s['axis'] * s['h'], axis_cls='other_end')
-    m4 = run(s_oe, material(1.0), beam, dets, 'other_end')
+    m4 = run(s_oe, material(1.0), beam, dets, 'other_end', in_place=(i % 2 == 1))
     del m0
     # monotone in density (observed against observed, undecided if the oracle difference is tiny)
     if m1 is not None and m2 is not None and m1['sub'] is None:
@@ -1292,63 +1475,356 @@ def transmission_case(rng, st, mods, i, tier):
     return s
 
 
-def big_case(rng, st, mods):
-    """> 2e7 elements: the per-detector loop, compared with the vectorised branch on chunks."""
+# ------------------------------------------------------- object-state workload ---
+CYL_FIELDS = ('height', 'center_of_base', 'symmetry_line', 'radius')
+STATE_EXTRA = ('inplace', 'replace', 'copy', 'deepcopy', 'rigid', 'units')
+
+
+def solid_of(c):
+    """The generator's view of a live object: read from its current public fields (used only to
+    aim rays at interesting places; expectations come from Geom(c) inside the monitors)."""
+    U, rU = str(c.center_of_base.unit), str(c.radius.unit)
+    return {'axis_cls': 'live', 'axis': np.array(c.symmetry_line.value, dtype=np.float64),
+            'base': np.array(c.center_of_base.value, dtype=np.float64),
+            'r': float(c.radius.value) * float(_ratio(c.radius.unit, c.center_of_base.unit)),
+            'h': float(c.height.value) * float(_ratio(c.height.unit, c.center_of_base.unit)),
+            'U': U, 'rU': rU}
+
+
+def _new_field_value(rng, ctx, c, field, j):
+    """A new value for one public field of the live cylinder ``c``."""
+    U = c.center_of_base.unit
+    if field == 'height':
+        f = (0.2, 3.0, 0.5, 7.0)[j % 4] * rng.uniform(0.8, 1.25)
+        return sc.scalar(float(c.height.value) * f, unit=c.height.unit)
+    if field == 'radius':
+        f = (2.5, 0.3, 1.7, 0.6)[j % 4] * rng.uniform(0.8, 1.25)
+        if c.radius.unit != U:
+            rU = LEN_UNITS[int(rng.integers(0, 3))]
+            return sc.scalar(float(c.radius.value) * f * float(_ratio(c.radius.unit, sc.Unit(rU))),
+                             unit=rU)
+        return sc.scalar(float(c.radius.value) * f, unit=c.radius.unit)
+    if field == 'center_of_base':
+        size = float(c.height.value) + float(c.radius.value) * float(_ratio(c.radius.unit, U))
+        shift = _sphere(rng) * size * 10.0 ** rng.uniform(-1, 2)
+        return sc.vector(np.array(c.center_of_base.value) + shift, unit=U)
+    cls = AXIS_CLASSES[int(rng.integers(0, len(AXIS_CLASSES)))]
+    return sc.vector(gen_axis(rng, cls, ctx))
+
+
+def state_case(rng, st, mods, i):
+    """One Cylinder object (and its copies) lives through a sequence of field updates; after
+    every step every public method is called and judged against the fields current then."""
+    import copy
+    import dataclasses
     ctx = st.ctx
     Cylinder, Material, ScatteringParams, ctm = mods
-    s = {'axis_cls': 'sphere', 'axis': _unit(np.array([0.3, -0.5, 0.81])), 'base': np.array([1.0, -2.0, 0.5]),
-         'r': 2.0, 'h': 7.0, 'U': 'mm', 'rU': 'mm'}
+    s0 = gen_solid(rng, ctx, int(rng.integers(0, 10 ** 6)) + 2 * len(AXIS_CLASSES), same_unit=i % 4 != 3)
+    # moderate aspect ratios: the interest here is the state, not the conditioning
+    s0['h'] = float(s0['r'] * float(_ratio(sc.Unit(s0['rU']), sc.Unit(s0['U']))) * 10.0 ** rng.uniform(-1, 1))
+    c = make_cylinder(Cylinder, s0)
+    sp = ScatteringParams('Fake', absorption_cross_section=sc.scalar(4.0, unit='barn'),
+                          total_scattering_cross_section=sc.scalar(6.0, unit='barn'))
+    mat = Material(sp, sc.scalar(0.0, unit='1/angstrom^3'))
+    lam = sc.array(dims=['wavelength'], values=[0.7, 3.1], unit='angstrom')
+    step = [0]
+    history = []
+
+    def exercise(obj, label):
+        history.append(label)
+        st.case_descr = {'kind': 'state', 'history': list(history), 'judged_object': label}
+        sol = solid_of(obj)
+        kind = KINDS[(i + step[0]) % 3]
+        step[0] += 1
+        # beam_intersection (and with it the pipeline) needs the radius in the unit of the base
+        # point (scipp refuses mixed units there): such objects get quadrature/volume/center only
+        mixed = obj.radius.unit != obj.center_of_base.unit
+        if mixed:
+            ctx.count('state:radius_in_other_unit_quadrature_only')
+        else:
+            P, N, classes = gen_rays(rng, sol, 14, ctx)
+            st.ray_classes = classes
+            try:
+                obj.beam_intersection(sc.vectors(dims=['ray'], values=P, unit=sol['U']),
+                                      sc.vectors(dims=['ray'], values=N))
+            except Exception:  # noqa: BLE001  judged by the monitor
+                pass
+            st.ray_classes = None
+        try:
+            obj.quadrature(kind)
+        except Exception:  # noqa: BLE001
+            pass
+        judge_props(st, obj, label)
+        if step[0] % 2 and not mixed:
+            # the whole pipeline on the live objects; density set for an optical depth ~ 1
+            size_m = (sol['r'] + sol['h']) * float(si.factor(sc.Unit(sol['U'])))
+            try:
+                mat.effective_sample_number_density = sc.scalar(
+                    1.0 / (1.6e-27 * size_m) * 1e-30 * rng.uniform(0.3, 2.0), unit='1/angstrom^3')
+            except Exception:  # noqa: BLE001
+                ctx.count('state:field_assignment_refused')
+            centre = sol['base'] + sol['axis'] * sol['h'] / 2
+            D = centre + np.array([_sphere(rng) for _ in range(3)]) * (sol['r'] + sol['h']) * 30.0
+            st.maps.clear()
+            try:
+                ctm(obj, mat, beam_direction=sc.vector(_sphere(rng)), wavelength=lam,
+                    detector_position=sc.vectors(dims=['det'], values=D, unit=sol['U']),
+                    quadrature_kind=KINDS[step[0] % 2])
+            except Exception:  # noqa: BLE001
+                pass
+            st.maps.clear()
+        ctx.event('state.exercised')
+        ctx.case(('state', label.split(':')[0], kind, sol['U'], sol['rU']))
+
+    def assign(obj, field, value):
+        try:
+            setattr(obj, field, value)
+        except Exception:  # noqa: BLE001   (a frozen dataclass is not a C18 matter)
+            ctx.count('state:field_assignment_refused')
+            return False
+        ctx.hit(f'live Cylinder: {field} reassigned')
+        return True
+
+    exercise(c, 'fresh')
+    # (1) every public field reassigned in turn on the same object
+    for j in range(4):
+        field = CYL_FIELDS[(i + j) % 4]
+        if assign(c, field, _new_field_value(rng, ctx, c, field, i + j)):
+            exercise(c, f'assign {field}')
+    # (2) the other ways a live object changes or is derived
+    for extra in (STATE_EXTRA[i % len(STATE_EXTRA)], STATE_EXTRA[(i + 3) % len(STATE_EXTRA)]):
+        field = CYL_FIELDS[int(rng.integers(0, 4))]
+        try:
+            if extra == 'inplace':
+                # the Variable held by the object is modified in place (no attribute assignment)
+                if field == 'height':
+                    c.height *= float(rng.uniform(1.5, 4.0))
+                elif field == 'radius':
+                    c.radius.value = float(c.radius.value) * float(rng.uniform(0.2, 0.7))
+                elif field == 'center_of_base':
+                    c.center_of_base += sc.vector(_sphere(rng) * float(c.height.value) * 3.0,
+                                                  unit=c.center_of_base.unit)
+                else:
+                    c.symmetry_line.value = _sphere(rng)
+                ctx.hit('live Cylinder: field Variable modified in place')
+                exercise(c, f'inplace {field}')
+            elif extra == 'replace':
+                c2 = dataclasses.replace(c, **{field: _new_field_value(rng, ctx, c, field, i)})
+                ctx.hit('Cylinder from dataclasses.replace')
+                exercise(c2, f'replace {field}')
+                exercise(c, 'original after replace')
+            elif extra in ('copy', 'deepcopy'):
+                c2 = copy.copy(c) if extra == 'copy' else copy.deepcopy(c)
+                ctx.hit('Cylinder from copy / deepcopy')
+                exercise(c2, f'{extra}')
+                if assign(c2, field, _new_field_value(rng, ctx, c2, field, i + 1)):
+                    exercise(c2, f'{extra} then assign {field}')
+                    exercise(c, f'original after {extra}')
+            elif extra == 'rigid':
+                R = _rotation(rng)
+                t = _sphere(rng) * float(c.height.value) * 10.0 ** rng.uniform(0, 2)
+                new_axis = _unit(R @ np.array(c.symmetry_line.value))
+                new_base = R @ np.array(c.center_of_base.value) + t
+                if assign(c, 'symmetry_line', sc.vector(new_axis)) and assign(
+                        c, 'center_of_base', sc.vector(new_base, unit=c.center_of_base.unit)):
+                    exercise(c, 'rigid motion by assignment')
+            else:  # units: the same solid described in another length unit
+                U2 = LEN_UNITS[(LEN_UNITS.index(str(c.center_of_base.unit)) + 1 + i % 2) % 3]
+                if assign(c, 'center_of_base', c.center_of_base.to(unit=U2)) and assign(
+                        c, 'height', c.height.to(unit=U2)) and assign(c, 'radius', c.radius.to(unit=U2)):
+                    exercise(c, f'units to {U2}')
+        except Exception:  # noqa: BLE001   the harness' own manipulation failed
+            ctx.oracle_error(f'C18 state manipulation {extra}')
+    st.case_descr = None
+    return solid_of(c)
+
+
+def material_state_case(rng, st, mods, i):
+    """One Material object: both public fields reassigned / modified / copied between calls of
+    attenuation_coefficient; judge_mu reads the fields current at each call."""
+    import copy
+    import dataclasses
+    ctx = st.ctx
+    _, Material, ScatteringParams, _ = mods
+
+    def params():
+        xs_u = XS_UNITS[int(rng.integers(0, len(XS_UNITS)))]
+        fx = float(si.factor(sc.Unit(xs_u)))
+        return ScatteringParams(
+            'Fake', absorption_cross_section=sc.scalar(10.0 ** rng.uniform(-1, 2) * 1e-28 / fx, unit=xs_u),
+            total_scattering_cross_section=sc.scalar(10.0 ** rng.uniform(-1, 1.5) * 1e-28 / fx, unit=xs_u))
+
+    def dens():
+        d_u = DENS_UNITS[int(rng.integers(0, len(DENS_UNITS)))]
+        return sc.scalar(10.0 ** rng.uniform(27, 29.5) / float(si.factor(sc.Unit(d_u))), unit=d_u)
+
+    def call(m, label):
+        n = int(rng.integers(1, 4))
+        unit = ('angstrom', 'nm', 'm')[int(rng.integers(0, 3))]
+        lam_A = 10.0 ** rng.uniform(-1, np.log10(20.0), size=n)
+        lam = sc.array(dims=['wavelength'],
+                       values=lam_A * {'angstrom': 1.0, 'nm': 0.1, 'm': 1e-10}[unit], unit=unit)
+        st.case_descr = {'kind': 'material_state', 'step': label}
+        try:
+            m.attenuation_coefficient(lam)
+        except Exception:  # noqa: BLE001  judged by the monitor
+            pass
+        ctx.case(('material_state', label, unit))
+
+    m = Material(params(), dens())
+    call(m, 'fresh')
+    try:
+        m.effective_sample_number_density = dens()
+        ctx.hit('live Material: field reassigned')
+        call(m, 'assign density')
+        m.scattering_params = params()
+        call(m, 'assign scattering_params')
+        m.effective_sample_number_density *= 2.5
+        call(m, 'inplace density')
+    except Exception:  # noqa: BLE001
+        ctx.count('state:field_assignment_refused')
+    try:
+        m2 = dataclasses.replace(m, effective_sample_number_density=dens())
+        call(m2, 'replace density')
+        m3 = copy.copy(m) if i % 2 else copy.deepcopy(m)
+        m3.scattering_params = params()
+        call(m3, 'copy then assign scattering_params')
+        call(m, 'original after copy')
+    except Exception:  # noqa: BLE001
+        ctx.oracle_error('C18 material state manipulation')
+    st.case_descr = None
+
+
+# ------------------------------------------------------------------ heavy case ---
+def heavy_case(rng, st, mods, tier):
+    """The size threshold of _integrate_transmission_fraction crossed from both sides with
+    >= 2 wavelengths and many detectors: (A) a flat pixel list just above it, (B) the same pixels
+    as a 2-d array above it, (C) the flat list just below it (vectorised at once); all compared
+    elementwise with each other and with a small vectorised evaluation of a subset of the same
+    pixels.  Which branch ran is observed (nested frames), not assumed."""
+    ctx = st.ctx
+    Cylinder, Material, ScatteringParams, ctm = mods
+    a = _sphere(rng)
+    r = float(10.0 ** rng.uniform(-0.5, 0.5))
+    h = r * float(rng.uniform(3.3, 6.0))          # > 35/11: the largest deterministic rule
+    U = LEN_UNITS[int(rng.integers(0, 3))]
+    s = {'axis_cls': 'sphere', 'axis': a, 'base': rng.uniform(-3, 3, size=3) * (r + h), 'r': r, 'h': h,
+         'U': U, 'rU': U}
     c = make_cylinder(Cylinder, s)
+    size_m = (r + h) * float(si.factor(sc.Unit(U)))
+    n_lam = 3
+    lam_A = np.sort(10.0 ** rng.uniform(-0.5, 1.0, size=n_lam))
+    lam = sc.array(dims=['wavelength'], values=lam_A, unit='angstrom')
     sp = ScatteringParams('Fake', absorption_cross_section=sc.scalar(3.0, unit='barn'),
                           total_scattering_cross_section=sc.scalar(5.0, unit='barn'))
-    mat = Material(sp, sc.scalar(0.04, unit='1/angstrom^3'))
-    lam = sc.array(dims=['wavelength'], values=[0.5, 4.0], unit='angstrom')
-    n_det = 2240    # 8960 nodes (expensive, h/r > 35/11) x 2240 > 2e7
-    dirs = np.array([_sphere(rng) for _ in range(n_det)])
-    D = (s['base'] + s['axis'] * s['h'] / 2) + dirs * 500.0
-    beam = _unit(np.array([0.0, 0.2, 1.0]))
-    st.case_descr = {'kind': 'transmission_big', 'n_det': n_det}
-    st.maps.clear()
+    tau = float(rng.uniform(0.5, 2.0))
+    n_si = tau / ((5.0 + 3.0 * lam_A[-1] / 1.7982) * 1e-28 * size_m)
+    mat = Material(sp, sc.scalar(n_si * 1e-30, unit='1/angstrom^3'))
+    beam = _sphere(rng)
+    st.case_descr = {'kind': 'transmission_heavy', 'lam_angstrom': lam_A.tolist()}
     st.big, st.big_counter = True, 0
     try:
-        full = ctm(c, mat, beam_direction=sc.vector(beam), wavelength=lam,
-                   detector_position=sc.vectors(dims=['det'], values=D, unit='mm'),
-                   quadrature_kind='expensive')
-    except Exception as e:  # noqa: BLE001
-        ctx.violation('transmission_raised', f'loop branch raised {type(e).__name__}: {e}',
-                      {'monitor': 'big case'})
-        return
+        try:
+            n_nodes = int(c.quadrature('expensive')[0].sizes['quad'])
+        except Exception:  # noqa: BLE001  judged by the quadrature monitor
+            return
+        n_above = LOOP_LIMIT // n_nodes + 1
+        n_below = LOOP_LIMIT // n_nodes
+        rows = 2 + int(rng.integers(0, 3))
+        cols = -(-n_above // rows)
+        n_ext = rows * cols
+        dirs = rng.normal(size=(n_ext, 3))
+        dirs /= np.linalg.norm(dirs, axis=1)[:, None]
+        centre = s['base'] + a * h / 2
+        D = centre + dirs * ((r + h) * 10.0 ** rng.uniform(0.7, 3, size=n_ext))[:, None]
+        st.case_descr.update(nodes=n_nodes, n_above=n_above, n_below=n_below, rows_cols=[rows, cols])
+
+        def evaluate(det, label, want_loop):
+            st.maps.clear()
+            before = st.loop_calls
+            try:
+                res = ctm(c, mat, beam_direction=sc.vector(beam), wavelength=lam,
+                          detector_position=det, quadrature_kind='expensive')
+            except Exception:  # noqa: BLE001  judged by the map monitor (transmission_raised)
+                return None
+            looped = st.loop_calls > before
+            if looped:
+                ctx.hit(f'per-detector loop branch observed ({label})')
+            elif want_loop is False:
+                ctx.hit(f'vectorised branch observed ({label})')
+            if want_loop is not None and looped != want_loop:
+                ctx.count(f'heavy:branch_not_as_planned:{label}')
+            ctx.case(('transmission', 'heavy', label, U, looped))
+            try:
+                dd = list(det.dims)
+                return np.asarray(res.data.transpose([*dd, lam.dim]).values,
+                                  dtype=np.float64).reshape(-1, n_lam)
+            except Exception:  # noqa: BLE001  wrong dims: judged by the map monitor
+                return None
+
+        def flat(idx):
+            return sc.vectors(dims=['det'], values=D[idx], unit=U)
+
+        def compare(x, y, label, **info):
+            if x is None or y is None:
+                ctx.count(f'heavy:not_compared:{label}')
+                return
+            d = float(np.max(np.abs(x - y))) if x.shape == y.shape else float('inf')
+            ctx.event('transmission.loop_vs_vectorised')
+            ctx.dev(f'heavy case: {label}', d)
+            if not d <= 1e-12:
+                k = np.unravel_index(int(np.argmax(np.abs(x - y))), x.shape) if x.shape == y.shape else (0, 0)
+                ctx.violation('transmission_loop_branch',
+                              f'{label}: the same pixels and wavelengths differ by {d:.3g} '
+                              f'(pixel {int(k[0])}, wavelength {int(k[1])}: '
+                              f'{float(x[k]) if x.shape == y.shape else None!r} vs '
+                              f'{float(y[k]) if x.shape == y.shape else None!r})',
+                              {'monitor': 'loop vs vectorised', 'case': dict(st.case_descr, **info),
+                               'cylinder': Geom(c).descr()}, comparison=label.split(':')[0])
+
+        A = evaluate(flat(slice(0, n_above)), 'flat list above the threshold', True)
+        sub = np.unique(np.concatenate([[0, 1, n_above - 2, n_above - 1],
+                                        rng.choice(n_above, size=44, replace=False)]))
+        S = evaluate(flat(sub), 'small subset', False)
+        compare(None if A is None else A[sub], S, 'looped flat list vs small vectorised call')
+        B = evaluate(sc.vectors(dims=['row', 'col'], values=D.reshape(rows, cols, 3), unit=U),
+                     '2-d array above the threshold', True)
+        compare(None if B is None else B[:n_above], A, '2-d array (loop over rows) vs flat list (loop over pixels)')
+        compare(None if B is None else B[sub], S, '2-d array (loop over rows) vs small vectorised call')
+        C = evaluate(flat(slice(0, n_below)), 'flat list just below the threshold', False)
+        compare(None if A is None else A[:n_below], C, 'looped flat list vs vectorised list one pixel shorter')
+        if tier == 'thorough':
+            # rows that are themselves above the threshold (loop inside loop), many thin rows
+            n2 = 2 * n_above
+            d2 = rng.normal(size=(n2, 3))
+            d2 /= np.linalg.norm(d2, axis=1)[:, None]
+            D2 = centre + d2 * (r + h) * 50.0
+            N = evaluate(sc.vectors(dims=['row', 'col'], values=D2.reshape(2, n_above, 3), unit=U),
+                         '2-d array with rows above the threshold', True)
+            sub2 = np.unique(np.concatenate([[0, n_above - 1, n_above, n2 - 1],
+                                             rng.choice(n2, size=44, replace=False)]))
+            S2 = evaluate(sc.vectors(dims=['det'], values=D2[sub2], unit=U), 'small subset 2', False)
+            compare(None if N is None else N[sub2], S2, 'nested loop vs small vectorised call')
+            thin_rows = -(-n_above // 3)
+            D3 = D2[:thin_rows * 3]
+            T3 = evaluate(sc.vectors(dims=['row', 'col'], values=D3.reshape(thin_rows, 3, 3), unit=U),
+                          '2-d array of many thin rows', True)
+            compare(T3, None if N is None else N[:thin_rows * 3], 'thin rows vs nested loop')
     finally:
         st.big = False
-    nodes = st.maps[-1]['T'].shape if st.maps else None
-    ctx.hit('per-detector loop branch (> 2e7 elements)')
-    parts = []
-    for k in range(0, n_det, 560):
-        st.big, st.big_counter = True, 0
-        try:
-            parts.append(ctm(c, mat, beam_direction=sc.vector(beam), wavelength=lam,
-                             detector_position=sc.vectors(dims=['det'], values=D[k:k + 560], unit='mm'),
-                             quadrature_kind='expensive'))
-        finally:
-            st.big = False
-    vec = np.concatenate([np.asarray(p.data.transpose(['det', 'wavelength']).values) for p in parts])
-    loop = np.asarray(full.data.transpose(['det', 'wavelength']).values)
-    d = float(np.max(np.abs(vec - loop)))
-    ctx.event('transmission.loop_vs_vectorised')
-    ctx.dev('loop branch vs vectorised branch', d)
-    ctx.case(('transmission', 'loop_branch', 'expensive', 'mm', 'sphere', nodes is not None))
-    if not d <= 1e-12:
-        ctx.violation('transmission_loop_branch',
-                      f'per-detector loop and vectorised evaluation differ by {d:.3g}',
-                      {'monitor': 'loop vs vectorised', 'n_det': n_det})
-    st.maps.clear()
+        st.maps.clear()
+        st.case_descr = None
 
 
 # ---------------------------------------------------------------------- driver ---
 def plan(tier, seed):
+    # the one heavy case of a run has the last shard for itself (quick) / rides on it (thorough)
     if tier == 'quick':
-        return [{'rays': 60, 'quads': 48, 'trans': 8, 'big': False} for _ in range(16)]
-    return [{'rays': 3000, 'quads': 2250, 'trans': 200, 'big': i == 0} for i in range(16)]
+        return [{'rays': 60, 'quads': 48, 'trans': 8, 'state': 5, 'mat_state': 4, 'heavy': False}
+                for _ in range(15)] + [
+            {'rays': 0, 'quads': 0, 'trans': 0, 'state': 0, 'mat_state': 0, 'heavy': True}]
+    return [{'rays': 3000, 'quads': 2250, 'trans': 200, 'state': 150, 'mat_state': 50,
+             'heavy': i == 15} for i in range(16)]
 
 
 def requirements(tier):
@@ -1361,15 +1837,26 @@ def requirements(tier):
         'transmission.rigid_motion': 20, 'transmission.other_end': 20,
         'attenuation_coefficient': 100, 'single_scatter_distance': 100,
         'integrate.normalisation': 100,
+        'state.exercised': 300, 'state.volume': 300, 'state.center': 300,
+        'transmission.loop_vs_vectorised': 4,
     }
     forced = list(FORCED_AXIS.values()) + [
         'axis z<0', 'axis in the xy-plane at a generic angle',
         'axis in the xy-plane, float64 norm rounds above 1', 'base at +-1e3', 'origin inside', 'origin outside', 'origin on surface',
         'dir exactly parallel', 'dir parallel within 1e-9', 'dir parallel to rounding', 'dir tangent',
-        'dir through edge', 'wavelength 0.1 and 20 angstrom', 'detector in forward/backward direction']
+        'dir through edge', 'wavelength 0.1 and 20 angstrom', 'detector in forward/backward direction',
+        'quadrature with h/r at a node-count threshold', 'axis just above the no-rotation tilt of 1e-10',
+        'dir around the parallel-line tilt sqrt(eps)',
+        'field reassigned on a live object', 'live Cylinder: field Variable modified in place',
+        'Cylinder from dataclasses.replace', 'Cylinder from copy / deepcopy', 'live Material: field reassigned',
+        'per-detector loop branch observed (flat list above the threshold)',
+        'per-detector loop branch observed (2-d array above the threshold)',
+        'vectorised branch observed (flat list just below the threshold)',
+        'vectorised branch observed (small subset)']
+    forced += [f'live Cylinder: {f} reassigned' for f in CYL_FIELDS]
     if tier == 'thorough':
-        ev['transmission.loop_vs_vectorised'] = 1
-        forced.append('per-detector loop branch (> 2e7 elements)')
+        forced.append('per-detector loop branch observed (2-d array with rows above the threshold)')
+        forced.append('per-detector loop branch observed (2-d array of many thin rows)')
     return {'events': ev, 'forced': forced, 'counters': {'rays_decided': 10000}}
 
 
@@ -1466,6 +1953,7 @@ def run(shard, ctx):
     tr.watch(B._single_scatter_distance_through_sample, '_single_scatter_distance_through_sample',
              on_return=_safe(st, 'judge_single_scatter', judge_single_scatter))
     tr.watch(B._integrate_transmission_fraction, '_integrate_transmission_fraction',
+             on_start=_safe(st, 'on_integrate_start', on_integrate_start),
              on_return=_safe(st, 'on_integrate_return', on_integrate_return))
     tr.watch(Material.attenuation_coefficient, 'Material.attenuation_coefficient',
              on_return=_safe(st, 'judge_mu', judge_mu))
@@ -1489,8 +1977,17 @@ def run(shard, ctx):
             s = transmission_case(rng, st, mods, i, shard.get('tier'))
             if i < 1 or ctx.n_violations > before:
                 ctx.sample({'case': 'transmission', 'detail': st.case_descr, 'solid': _solid_descr(s)})
-        if shard.get('big'):
-            big_case(rng, st, mods)
+        st.origin = 'state'
+        for i in range(shard.get('state', 0)):
+            before = ctx.n_violations
+            s = state_case(rng, st, mods, i + 7 * shard['index'])
+            if i < 1 or ctx.n_violations > before:
+                ctx.sample({'case': 'state', 'final_solid': _solid_descr(s)})
+        for i in range(shard.get('mat_state', 0)):
+            material_state_case(rng, st, mods, i)
+        if shard.get('heavy'):
+            st.origin = 'transmission'
+            heavy_case(rng, st, mods, shard.get('tier'))
     if shard['index'] == 0:
         ctx.extra['mpmath_selftest'] = _mp_selftest(ctx)
 
@@ -1545,7 +2042,8 @@ FINDING_PREDICATES = {
 TECHNIQUE = ('runtime monitors (sys.monitoring) on beam_intersection + helpers, quadrature, '
              '_select_quadrature_points, compute_transmission_map and its helpers; long-double own-frame '
              'geometry oracle with shrunk/grown-solid enclosure, canonical-pose multiset comparison, '
-             'transmission recomputed from observed nodes with oracle paths')
+             'transmission recomputed from observed nodes with oracle paths; stateful object sequences judged against '
+             'the fields current at each call; looped vs vectorised evaluation compared elementwise')
 LEVEL_TEXT = ('exploration: every observed path length (direct calls in forced ray classes and all calls '
               'made inside compute_transmission_map) is compared with the clipping of the ray against '
               'rho<=r, 0<=z<=h in a Gram-Schmidt frame; every observed quadrature is judged node by node '
